@@ -1946,6 +1946,104 @@ class FnKinds:
                     self.ev("index-arg", call, callee=callee, param=p, arg=arg, rng=r, extent=ext, ok=self.within(r, ext), obj=o, arg_canon=self.canon(arg))
 
 
+# -------------------------------------------------------------------------------------------------
+# judgments shared by the property checks
+# -------------------------------------------------------------------------------------------------
+
+def mask_test(canon):
+    """(mask array, element) for the conditions `M[x] == 0`, `0 == M[x]`, `!M[x]`, `M[x] != 1`"""
+    for pat in (r"^\((\w+)\[(.*)\] == 0\)$", r"^\(0 == (\w+)\[(.*)\]\)$", r"^!(\w+)\[(.*)\]$", r"^\((\w+)\[(.*)\] != 1\)$"):
+        m = re.search(pat, canon or "")
+        if m:
+            return m.group(1), m.group(2)
+    return None
+
+
+def frames_key(frames):
+    out = []
+    for f in frames:
+        mt = mask_test(f.canon) if f.kind == "if" else None
+        out.append("if:unmarked(%s[%s])/%s" % (mt[0], mt[1], f.branch) if mt else repr(f))
+    return " > ".join(out)
+
+
+def coverage(fk, key, base_frames=(), after_seq=0, case=None):
+    """Is array `key` assigned on its whole extent (as of its last allocation) by loops / single writes at
+    the nesting level `base_frames`?  -> (ok, detail).  ok None: a write form that is not understood."""
+    arr = None
+    alloc_seq = after_seq
+    for e in fk.events:
+        if e.kind == "alloc" and e.arr.key == key:
+            arr, alloc_seq = e.arr, max(e.seq, after_seq)
+    if arr is None:
+        arr = fk.arrs.get(key)
+    if arr is None or arr.extent is None:
+        return None, "array %s has no known extent" % key
+    ext = fk.norm(arr.extent)
+    if arr.fresh and arr.zero and getattr(arr, "fill", None) is not None:
+        return True, "allocated with an explicit fill value over its extent %r" % ext
+    nb = len(base_frames)
+    pieces = []     # (lo Lin, hi Lin, text)
+    cond_writes = {}
+    for e in fk.events:
+        if e.kind != "sub" or e.mode != "write" or e.arr.key != key or e.seq <= alloc_seq:
+            continue
+        if e.op != "=" and not arr.zero:
+            continue
+        fr = e.frames[nb:]
+        if [repr(x) for x in e.frames[:nb]] != [repr(x) for x in base_frames]:
+            continue
+        loops = [x for x in fr if x.kind == "loop"]
+        ifs = [x for x in fr if x.kind == "if"]
+        cases = [x for x in fr if x.kind == "case"]
+        if case is not None and not any(case in getattr(c, "labels", []) for c in cases):
+            continue
+        if case is None and cases:
+            continue
+        r = e.rng
+        if isinstance(r, Top):
+            # scatter through a bijection: A[V[i]] with V a permutation array by contract
+            sub = _subscript(e.idx)
+            if sub is not None and len(loops) == 1:
+                v = fk.array_of(sub[0])
+                if v is not None and isinstance(v.elem, Rng) and v.extent is not None and fk.norm(v.elem.hi) == ext and fk.norm(v.extent) == ext:
+                    lp = loops[0].loop
+                    if lp is not None and lp.kind == "range" and lp.hi is not None and not ifs:
+                        pieces.append((Lin.const(lp.lo), fk.norm(lp.hi), "scatter %s[%s[.]] through the index array %s (a permutation by contract)" % (key, v.key, v.key)))
+            continue
+        if ifs:
+            # both branches of one if must write the same element
+            ik = (id(ifs[-1].node), e.idx_canon, tuple(id(l.node) for l in loops))
+            cond_writes.setdefault(ik, set()).add(ifs[-1].branch)
+            if cond_writes[ik] != {"then", "else"} or len(ifs) > 1:
+                continue
+        if not loops:
+            if r.exact is not None:
+                pieces.append((fk.norm(r.exact), fk.norm(r.exact) + 1, "%s[%s]" % (key, render(e.idx))))
+            continue
+        if len(loops) > 1:
+            continue
+        lp = loops[0].loop
+        if lp is None or lp.kind not in ("range", "down") or getattr(lp, "hi", None) is None:
+            continue
+        pieces.append((Lin.const(r.lo), fk.norm(r.hi), "%s[%s] in loop %s" % (key, render(e.idx), lp.canon)))
+    cur = Lin.const(0)
+    used = []
+    for _ in range(len(pieces) + 1):
+        if cur == ext:
+            return True, "extent %r covered by %s" % (ext, "; ".join(used))
+        nxt = [p for p in pieces if p[0] == cur or (p[0].is_const() and cur.is_const() and p[0].c <= cur.c)]
+        nxt = [p for p in nxt if p[1] != cur]
+        if not nxt:
+            break
+        best = nxt[0]
+        used.append("%s = [%r,%r)" % (best[2], best[0], best[1]))
+        cur = best[1]
+    if cur == ext:
+        return True, "extent %r covered by %s" % (ext, "; ".join(used))
+    return False, "extent is [0,%r) but the assignments only cover [0,%r)%s" % (ext, cur, (" (" + "; ".join("%s=[%r,%r)" % (p[2], p[0], p[1]) for p in pieces) + ")") if pieces else " (no covering assignment found)")
+
+
 def frames_canon(frames, upto=None):
     out = []
     for fr in frames:
